@@ -308,9 +308,16 @@ def check_C04(tr, alloc=None):
             continue
         c = op["c"]
         fr = st.frames(c, "allocated")
+        b = st.bind_pre.get(c)
+        if not fr and st.pre is not None and b and st.internal() and not st.crashed():
+            # an in-order allocate must be answered; the only recorded exception is exhaustion of all names
+            taken = {r[2] for r in st.pre.nameplates if r[1] == b[0]}
+            exhausted = all(str(k) in taken for k in range(1, 1000))
+            out.append(Finding("C04", "allocate is answered with a nameplate", st.i, {"events": st.raw_events},
+                               "K-alloc-exhaust" if exhausted else None))
+            continue
         if not fr or st.pre is None:
             continue
-        b = st.bind_pre.get(c)
         n = dec(fr[0]["args"][0])
         names = {r[2] for r in st.pre.nameplates if r[1] == b[0]}
         if not _is_canonical_decimal(n):
